@@ -717,6 +717,18 @@ func (fr *Frame) safeObl(kind, cond string, pos token.Pos, what string) {
 	if !vc.safe {
 		return
 	}
+	if vc.safeTopOnly && fr.depth > 0 {
+		return // inlined callees are swept on their own
+	}
+	if cond == "true" {
+		return
+	}
+	// constant conditions are decided here
+	if kind == "index" || kind == "slice" {
+		if constTrue(cond) {
+			return
+		}
+	}
 	text := ""
 	switch kind {
 	case "index":
@@ -751,11 +763,24 @@ func (fr *Frame) safeObl(kind, cond string, pos token.Pos, what string) {
 }
 
 func (fr *Frame) nonNil(v Val, pos token.Pos) {
+	if v.Loc != nil && v.Loc.Kind != locCell {
+		return // interior pointer: never nil
+	}
+	if v.T == "" || v.T == "0" {
+		return
+	}
+	// execution continues past a dereference only when the pointer is not nil (the nil case panics and is
+	// the subject of the safety obligation generated below in safe mode)
+	defer func() {
+		if fr.curReach != "" && fr.curReach != "false" {
+			fr.vc.assume(fr.curReach, sNot(sEq(v.T, "0")), "dereferenced")
+		}
+	}()
 	if !fr.vc.safe {
 		return
 	}
-	if v.Loc != nil && v.Loc.Kind != locCell {
-		return // interior pointer: never nil
+	if fr.vc.safeTopOnly && fr.fn.Signature.Recv() != nil && len(fr.params) > 0 && v.T == fr.params[0].T {
+		return // sweep assumption: methods are invoked on non-nil receivers (listed in the evidence)
 	}
 	if _, ok := fr.vc.defIdx[v.T]; ok {
 		// skip obviously fresh allocations
@@ -1770,4 +1795,53 @@ func (e *Engine) calledNames(b *ssa.BasicBlock, out map[string]bool, seen map[*s
 			}
 		}
 	}
+}
+
+// decides conjunctions of comparisons between integer literals
+func constTrue(cond string) bool {
+	c := strings.TrimSpace(cond)
+	if c == "true" {
+		return true
+	}
+	if strings.HasPrefix(c, "(and ") && strings.HasSuffix(c, ")") {
+		inner := c[5 : len(c)-1]
+		// split top-level s-expressions
+		depth, start := 0, 0
+		for i := 0; i < len(inner); i++ {
+			switch inner[i] {
+			case '(':
+				if depth == 0 {
+					start = i
+				}
+				depth++
+			case ')':
+				depth--
+				if depth == 0 {
+					if !constTrue(inner[start : i+1]) {
+						return false
+					}
+				}
+			}
+		}
+		return depth == 0
+	}
+	for _, op := range []string{"<=", "<"} {
+		p := "(" + op + " "
+		if strings.HasPrefix(c, p) && strings.HasSuffix(c, ")") {
+			f := strings.Fields(c[len(p) : len(c)-1])
+			if len(f) != 2 {
+				return false
+			}
+			a, ok1 := new(big.Int).SetString(f[0], 10)
+			b, ok2 := new(big.Int).SetString(f[1], 10)
+			if !ok1 || !ok2 {
+				return false
+			}
+			if op == "<=" {
+				return a.Cmp(b) <= 0
+			}
+			return a.Cmp(b) < 0
+		}
+	}
+	return false
 }
